@@ -33,7 +33,7 @@ Optional == << <<"ti", "trace_identifier", "ti">>, <<"pip", "process_image_path"
 OptKeys == {Optional[i][1] : i \in 1..Len(Optional)}
 
 \* default of an absent optional field, in the abstraction of the harness
-DefaultOf(kind) == CASE kind = "int" -> 0 [] kind = "str" -> 0 [] kind = "enum" -> -1 [] kind \in {"tz", "raw", "lc", "dm"} -> <<>>
+DefaultOf(kind) == CASE kind = "int" -> 0 [] kind = "str" -> -1 [] kind = "enum" -> -1 [] kind \in {"tz", "raw", "lc", "dm"} -> <<>>
                      [] kind = "bt" -> <<>> [] kind = "ti" -> <<>> [] OTHER -> 0
 
 \* ---- trace identifier: firehose_tracepoint_id, 8 little-endian bytes ------------------------------
